@@ -246,7 +246,7 @@ def install_stop():
     tr.executeCodeIn = executeCodeIn
 
 
-def run_route(route, data, uid):
+def run_route(route, data, uid, keep=None):
     """Run one input through one entry point of the front end.  data: str (routes ast/string) or bytes (file/import).
     ast    : parse_string -> compileScenicAST -> astToSource -> Python compile() of the translated module
     string : scenic.scenarioFromString            file : scenic.scenarioFromFile on a real file
@@ -262,6 +262,8 @@ def run_route(route, data, uid):
     if route == "ast":
         def run():
             tree = parse_string(data, "exec", filename="<mutant>")
+            if keep is not None:
+                keep.update(_tree_facts(tree))
             out, _ = compileScenicAST(tree, filename="<mutant>")
             getattr(tr, "astToSource", lambda t: None)(out)
             fn = getattr(tr, "compileTranslatedTree", None)
@@ -555,11 +557,158 @@ def docs(req):
     return out
 
 
+
+# ----------------------------------------------------------------------------- sentence / composition jobs (round 3)
+def _tree_facts(tree):
+    """location-free dump of a parsed module, class name of the value of its LAST statement and of that node's direct children"""
+    import ast
+    last = tree.body[-1] if tree.body else tree
+    while getattr(last, "body", None) and isinstance(last.body, list) and type(last).__name__ in ("BehaviorDef", "FunctionDef", "ClassDef", "If", "TryInterrupt"):
+        last = last.body[0] if type(last).__name__ in ("If",) else last.body[-1]
+    node = getattr(last, "value", None) or getattr(last, "cond", None) or last
+    kids = [type(k).__name__ for k in ast.iter_child_nodes(node) if not isinstance(k, (ast.expr_context, ast.operator, ast.unaryop, ast.cmpop, ast.boolop))]
+    return dict(dump=ast.dump(tree), root=type(node).__name__, kids=kids)
+
+
+def sent(req):
+    """jobs: dict(id, text[, full]).  `text` goes through the `ast` route (parse + compile + Python compile()); when `full` (the same
+    tree written with every operator child parenthesised) is given, it is parsed too and the location-free dumps are compared."""
+    signal.signal(signal.SIGVTALRM, _alarm)
+    install_stop()
+    return [_one_sentence(job) for job in req["jobs"]]
+
+
+def _one_sentence(job):
+    from scenic.syntax.parser import parse_string
+    if True:
+        keep = {} if "full" in job else None
+        r = run_route("ast", job["text"], job["id"], keep=keep)
+        res = dict(id=job["id"], outcome=r["outcome"], type=r.get("type"), msg=r.get("msg"), func=r.get("func"), file=r.get("file"),
+                   lineno=r.get("lineno"), nlines=r.get("nlines"), route="ast", cpu_s=r.get("cpu_s"))
+        if "full" in job:
+            if job["full"] == job["text"]:
+                full = keep if "dump" in keep else None
+                res["full_outcome"] = "ok" if full else r["outcome"]
+            else:
+                try:
+                    full = _tree_facts(parse_string(job["full"], "exec", filename="<sentence>"))
+                    res["full_outcome"] = "ok"
+                except BaseException as e:
+                    if isinstance(e, (KeyboardInterrupt, SystemExit)):
+                        raise
+                    res.update(full_outcome=classify(e, job["full"].count("\n") + 1)["outcome"], full_msg=str(e)[:160])
+                    full = None
+            if full:
+                res.update(root=full["root"], kids=full["kids"])
+                if "dump" in keep:
+                    res["same_tree"] = keep["dump"] == full["dump"]
+                    if not res["same_tree"]:
+                        res["dump_min"], res["dump_full"] = keep["dump"][:1500], full["dump"][:1500]
+        return res
+
+
+# ----------------------------------------------------------------------------- error-reporting alternatives (round 3)
+def _error_alt_lines():
+    """(function name, k) for the k-th alternative of every rule method of the generated parser, keyed by the line of the `return`
+    that is executed when that alternative matched; read off the generated parser's own source with ast."""
+    import ast
+    import scenic.syntax.parser as P
+    src = open(P.__file__, encoding="utf-8").read()
+    tree = ast.parse(src)
+    lines, counts = {}, {}
+    cls = next(n for n in tree.body if isinstance(n, ast.ClassDef) and n.name == "ScenicParser")
+    for fn in cls.body:
+        if not isinstance(fn, ast.FunctionDef):
+            continue
+        k = 0
+        for st in fn.body:
+            if isinstance(st, ast.If) and st.body and isinstance(st.body[-1], ast.Return):
+                lines[st.body[-1].lineno] = (fn.name, k)
+                k += 1
+        counts[fn.name] = k
+    return P.__file__, lines, counts
+
+
+def invalid(req):
+    """jobs: dict(id, text, target=[rule, alt]).  Every text goes through the `ast` route and, when it is rejected, also through
+    scenarioFromString; which error-reporting alternatives' ACTIONS ran is recorded (sys.monitoring LINE events on the rule methods
+    named in req['rules'] only; sys.settrace before 3.12)."""
+    signal.signal(signal.SIGVTALRM, _alarm)
+    install_stop()
+    import scenic.syntax.parser as P
+    pfile, lines, counts = _error_alt_lines()
+    want = set(req["rules"])
+    hit = {}
+    cur = [None]
+
+    def on_line(code, line):
+        key = lines.get(line)
+        if key is not None and key[0] == code.co_name:
+            hit.setdefault("%s:%d" % key, cur[0])
+    mon = getattr(sys, "monitoring", None)
+    funcs = []
+    for n in want:
+        f = getattr(P.ScenicParser, n, None)
+        while f is not None and hasattr(f, "__wrapped__"):
+            f = f.__wrapped__
+        if f is not None:
+            funcs.append(f.__code__)
+    if mon is not None:
+        tid = 3
+        try:
+            mon.use_tool_id(tid, "c10-invalid")
+        except ValueError:
+            pass
+        mon.register_callback(tid, mon.events.LINE, on_line)
+        for c in funcs:
+            mon.set_local_events(tid, c, mon.events.LINE)
+    else:
+        names = {c.co_name for c in funcs}
+
+        def tracer(frame, event, arg):
+            if event == "call" and frame.f_code.co_filename == pfile and frame.f_code.co_name in names:
+                def local(fr, ev, a):
+                    if ev == "line":
+                        on_line(fr.f_code, fr.f_lineno)
+                    return local
+                return local
+            return None
+        sys.settrace(tracer)
+    out = []
+    try:
+        for job in req["jobs"]:
+            cur[0] = job["id"]
+            before = set(hit)
+            if "target" not in job:
+                out.append(_one_sentence(job))
+                continue
+            r = front_end(job["text"], ["ast"], job["id"])
+            if r["outcome"] == "syntax-error" and job.get("string"):
+                r2 = run_route("string", job["text"], job["id"])
+                if r2["outcome"] not in GOOD or r2.get("veneer_restored") is False:
+                    r = dict(r2, routes=r.get("routes", []) + ["string:" + r2["outcome"]])
+            res = dict(id=job["id"], outcome=r["outcome"], type=r.get("type"), msg=r.get("msg"), func=r.get("func"), file=r.get("file"),
+                       lineno=r.get("lineno"), nlines=r.get("nlines"), route=r.get("route"), routes=r.get("routes"), cpu_s=r.get("cpu_s"),
+                       reached=sorted(set(hit) - before))
+            if "veneer_restored" in r:
+                res["veneer_restored"] = r["veneer_restored"]
+                res["veneer"] = r.get("veneer")
+            out.append(res)
+    finally:
+        if mon is not None:
+            for c in funcs:
+                mon.set_local_events(tid, c, 0)
+            mon.free_tool_id(tid)
+        else:
+            sys.settrace(None)
+    return dict(results=out, reached=hit, alt_counts={n: counts.get(n) for n in want})
+
+
 def main():
     req = json.load(sys.stdin)
     k = req["kind"]
-    res = dict(fuzz=fuzz, inject=inject, docs=docs)[k](req)
-    print(json.dumps(dict(results=res)))
+    res = dict(fuzz=fuzz, inject=inject, docs=docs, sent=sent, invalid=invalid)[k](req)
+    print(json.dumps(res if isinstance(res, dict) else dict(results=res)))
 
 
 if __name__ == "__main__":
